@@ -96,6 +96,11 @@ def sessionExecsA (fails : RCmd → Bool) (entry : RCmd) (typed : List RCmd) (ex
 def recordCmd (rep : Option Replay) (c : RCmd) : Option Replay :=
   if c.repeatable then some (.single c) else rep
 
+/-- The recording since fix aec32a0: a command whose motion failed did nothing and is not what `.` repeats
+(`failed` is the editor's verdict). -/
+def recordCmdF (rep : Option Replay) (c : RCmd) (failed : Bool) : Option Replay :=
+  if c.repeatable && !failed then some (.single c) else rep
+
 /-- Leaving an insert/replace session: entry command, everything typed, the closing <esc>. -/
 def recordSession (entry : RCmd) (typed : List RCmd) (exit : RCmd) (reps : Nat) : Option Replay :=
   some (.mode (entry :: typed ++ [exit]) reps)
